@@ -159,10 +159,16 @@ pub fn gen_cfg(rng: &mut Rng, prof: &Profile) -> WorldCfg {
         ("utwelve".into(), 12),
     ];
     let small = rng.chance(1, 12);
+    // whale worlds: everybody holds 1e37 units of everything, so that amounts near the 128-bit
+    // ceiling (after normalisation to the pool's highest precision) can be deposited
+    // (pool profile only: the farm-side monitors' own arithmetic is written for amounts below 1e30)
+    let whale = !small && prof.name == "pool" && rng.chance(1, 12);
     let init_balance: Vec<u128> = denoms
         .iter()
         .map(|(_, d)| {
-            if small {
+            if whale {
+                10u128.pow(37)
+            } else if small {
                 10u128.pow(*d as u32 + 3)
             } else {
                 10u128.pow(*d as u32 + 12)
@@ -660,6 +666,19 @@ impl Gen {
                     1 => self.rng.log_u128(10u128.pow(d + 9)),
                     _ => whole.saturating_mul(10u128.pow(scale)) / *self.rng.pick(&[1u128, 1, 1, 2, 3, 10, 1000]),
                 };
+                // whale worlds: a first deposit whose largest normalised amount sits at the 128-bit
+                // ceiling divided by the number of assets (just below, at, just above)
+                if b >= 10u128.pow(36) && self.rng.chance(1, 3) {
+                    let mxd = *pi.asset_decimals.iter().max().unwrap() as u32;
+                    let scale_up = 10u128.pow(mxd.saturating_sub(pi.asset_decimals[i] as u32).min(30));
+                    let ceiling = u128::MAX / (pi.assets.len() as u128) / scale_up;
+                    amt = match self.rng.below(4) {
+                        0 => ceiling - ceiling / 1000,
+                        1 => ceiling,
+                        2 => ceiling + ceiling / 1000,
+                        _ => ceiling / 3,
+                    };
+                }
                 if pegged {
                     // the same number of whole tokens (in thousandths) of every asset, within what the
                     // sender holds of each
